@@ -20,6 +20,13 @@
 // growing, same size, shrinking, to 0 bytes (the code defines it: a tracked 0-byte block comes back) - on blocks of the
 // current test and on blocks left by earlier tests, and realloc(NULL, n) as an allocation form.  Model: the old block is
 // released, the result is a NEW block allocated by the current test.
+// Extension (seeded change C07-s4): a second, scripted plugin, installed before or after the leak plugin (decoded) or absent,
+// adds 0..2 failures for decoded tests through result.addFailure in its pre and / or post action (as MockSupportPlugin does
+// in its post action).  Model: a failure recorded for the test before the leak plugin's post action suppresses the leak
+// failure (own check; the other plugin's pre action; its post action when that runs first, i.e. when it was installed
+// BEFORE the leak plugin), one recorded after it does not.
+// Not generated (domain restriction, the statement is ambiguous there): pre-action failures of a plugin installed AFTER the
+// leak plugin - they are recorded before the leak plugin's own pre action (see "Observation (not judged)" in notes/C07.md).
 #include "common.h"
 #include "CppUTest/TestHarness_c.h"
 #include "CppUTest/JUnitTestOutput.h"
@@ -36,7 +43,7 @@ using verif::sfmt;
 
 namespace {
 
-enum { MAXT = 16, NSLOT = 16, MAXOPS = 8, BULKMAX = 150, BULKTOTAL = 1200, MAXKEPT = 2 * MAXT * 4, MAXBLK = MAXT * 3 * MAXOPS + BULKTOTAL + MAXKEPT, MAXFAIL = 4, MSGLEN = SimpleStringBuffer::SIMPLE_STRING_BUFFER_LEN + 64 };
+enum { MAXT = 16, NSLOT = 16, MAXOPS = 8, BULKMAX = 150, BULKTOTAL = 1200, MAXKEPT = 2 * MAXT * 8, MAXBLK = MAXT * 3 * MAXOPS + BULKTOTAL + MAXKEPT, MAXFAIL = 8, MSGLEN = SimpleStringBuffer::SIMPLE_STRING_BUFFER_LEN + 64 };
 enum Kind { K_NEW = 0, K_NEWARR = 1, K_MALLOC = 2, K_RELEASE, K_EXPECT, K_IGNORE, K_CHECK, K_FAIL, K_BULK, K_REALLOC };
 enum OutMode { OUT_PLAIN = 0, OUT_COLLECTING = 1, OUT_JUNIT = 2 };
 const char* fam_name[3] = {"new", "new[]", "malloc"};
@@ -142,6 +149,22 @@ PlatformSpecificFile stub_fopen(const char*, const char*) { static int handle; r
 void stub_fputs(const char*, PlatformSpecificFile) {}
 void stub_fclose(PlatformSpecificFile) {}
 
+// the second plugin: scripted failures straight into the TestResult (the shell's hasFailed() stays false)
+enum XMode { X_NONE = 0, X_BEFORE_LEAK_PLUGIN = 1, X_AFTER_LEAK_PLUGIN = 2 };
+int g_xpre[MAXT], g_xpost[MAXT];
+struct ScriptPlugin : TestPlugin {
+    ScriptPlugin() : TestPlugin("VerifScriptPlugin") {}
+    void preTestAction(UtestShell& test, TestResult& result) CPPUTEST_OVERRIDE {
+        int t = static_cast<ScriptShell&>(test).t;
+        for (int i = 0; i < g_xpre[t]; i++) result.addFailure(TestFailure(&test, "scripted plugin failure (pre action)"));
+    }
+    void postTestAction(UtestShell& test, TestResult& result) CPPUTEST_OVERRIDE {
+        int t = static_cast<ScriptShell&>(test).t;
+        for (int i = 0; i < g_xpost[t]; i++) result.addFailure(TestFailure(&test, "scripted plugin failure (post action)"));
+    }
+};
+ScriptPlugin* g_xplugin;
+
 struct RecResult : TestResult {
     explicit RecResult(TestOutput& o) : TestResult(o) {}
     void addFailure(const TestFailure& f) CPPUTEST_OVERRIDE {
@@ -163,6 +186,8 @@ struct RecResult : TestResult {
 // ---- reference model, evaluated while decoding ------------------------------------------------------------------
 struct TestModel {
     int own_failures = 0; bool ignored = false; unsigned expected = 0;
+    int xpre = 0, xpost = 0;       // failures the scripted plugin adds for this test
+    bool failed_before = false;
     std::vector<int> leaks;          // blocks allocated during this test and still outstanding at its end
     bool leak_failure = false;
     bool cross_release = false, edge_leak = false, expect_nonzero = false;
@@ -220,6 +245,9 @@ int run_case(Reader& r, bool& nontrivial, std::string& desc) {
     int outmode = (int)r.below(3);
     bool keep_beyond_final = outmode == OUT_COLLECTING && r.flag();
     int bulk_total = 0;
+    int xmode = (int)r.below(3);
+    if (xmode) desc += xmode == X_BEFORE_LEAK_PLUGIN ? "[2nd plugin installed before the leak plugin] " : "[2nd plugin installed after the leak plugin] ";
+    memset(g_xpre, 0, sizeof g_xpre); memset(g_xpost, 0, sizeof g_xpost);
     desc += outmode == OUT_PLAIN ? "" : outmode == OUT_JUNIT ? "[junit output] " : keep_beyond_final ? "[collecting output, kept beyond the final report] " : "[collecting output] ";
     int slot_blk[NSLOT]; for (int i = 0; i < NSLOT; i++) slot_blk[i] = -1;
     std::vector<TestModel> model((size_t)g_ntests);
@@ -227,6 +255,13 @@ int run_case(Reader& r, bool& nontrivial, std::string& desc) {
     for (int t = 0; t < g_ntests; t++) {
         TestModel& M = model[(size_t)t];
         desc += sfmt("t%02d{", t);
+        if (xmode && r.chance(1, 3)) {
+            M.xpre = (int)r.below(3); M.xpost = (int)r.below(3);
+            if (xmode == X_AFTER_LEAK_PLUGIN) M.xpre = 0;      // would be recorded before the leak plugin's own pre action: outside the domain
+            g_xpre[t] = M.xpre; g_xpost[t] = M.xpost;
+            if (M.xpre) desc += sfmt("plugin-pre-fail x%d ", M.xpre);
+            if (M.xpost) desc += sfmt("plugin-post-fail x%d ", M.xpost);
+        }
         bool skip_body = false;
         for (int ph = 0; ph < 3; ph++) {
             Phase& P = g_script[t].ph[ph];
@@ -299,13 +334,16 @@ int run_case(Reader& r, bool& nontrivial, std::string& desc) {
             }
         }
         for (int b = 0; b < g_nblk; b++) if (g_blk[b].owner == t && g_blk[b].live) { M.leaks.push_back(b); if (g_blk[b].phase != 1) M.edge_leak = true; }
-        M.leak_failure = M.own_failures == 0 && !M.ignored && M.leaks.size() != M.expected;
-        desc += sfmt("}=>%s ", M.leak_failure ? sfmt("LEAKFAIL(%zu)", M.leaks.size()).c_str() : (M.own_failures ? "ownfail" : "pass"));
+        // failed before the leak plugin judges it?  own checks; the other plugin's pre action; its post action iff that runs first
+        M.failed_before = M.own_failures > 0 || M.xpre > 0 || (xmode == X_BEFORE_LEAK_PLUGIN && M.xpost > 0);
+        M.leak_failure = !M.failed_before && !M.ignored && M.leaks.size() != M.expected;
+        desc += sfmt("}=>%s ", M.leak_failure ? sfmt("LEAKFAIL(%zu)", M.leaks.size()).c_str() : (M.own_failures ? "ownfail" : (M.xpre || M.xpost) ? "pluginfail" : "pass"));
     }
     std::vector<int> final_blocks;
     for (int b = 0; b < g_nblk; b++) if (g_blk[b].live) final_blocks.push_back(b);
-    bool any_cross = false, any_edge = false, any_expect = false; int leakfails = 0, ownfails = 0;
-    for (auto& M : model) { any_cross |= M.cross_release; any_edge |= M.edge_leak; any_expect |= M.expect_nonzero; leakfails += M.leak_failure; ownfails += M.own_failures; }
+    bool any_cross = false, any_edge = false, any_expect = false; int leakfails = 0, ownfails = 0, xfails = 0;
+    for (auto& M : model) { any_cross |= M.cross_release; any_edge |= M.edge_leak; any_expect |= M.expect_nonzero; leakfails += M.leak_failure; ownfails += M.own_failures; xfails += M.xpre + M.xpost; }
+    for (auto& M : model) if ((M.xpre || M.xpost) && !M.own_failures && !M.ignored && M.leaks.size() != M.expected) nontrivial = true;   // plugin failure meets an unexpected leak
     nontrivial = (g_ntests >= 2 && (any_cross || any_edge)) || any_expect;
     if (outmode != OUT_PLAIN && g_ntests >= 2) for (int t = 0; t + 1 < g_ntests; t++) if (model[(size_t)t].leak_failure) nontrivial = true;   // allocating output prints a leak failure, a test follows
     if (verif::g_explain) fprintf(stderr, "  program: %s\n", desc.c_str());
@@ -324,7 +362,9 @@ int run_case(Reader& r, bool& nontrivial, std::string& desc) {
     RecResult result(output);
     TestRegistry registry;
     for (int t = g_ntests - 1; t >= 0; t--) registry.addTest(g_shell[t]);
+    if (xmode == X_BEFORE_LEAK_PLUGIN) registry.installPlugin(g_xplugin);     // installed first = its post action runs first
     registry.installPlugin(g_plugin);
+    if (xmode == X_AFTER_LEAK_PLUGIN) registry.installPlugin(g_xplugin);
     size_t total_failures;
 
     // ---- ON window ----
@@ -355,6 +395,7 @@ int run_case(Reader& r, bool& nontrivial, std::string& desc) {
     }
     int bulk_tests = 0, printed_leak_failures_before_last = 0;
     for (int t = 0; t < g_ntests; t++) { if (model[(size_t)t].bulk) bulk_tests++; if (model[(size_t)t].leak_failure && t + 1 < g_ntests) printed_leak_failures_before_last++; }
+    verif::cls(xmode == X_NONE ? "plugins:leak-plugin-only" : xmode == X_BEFORE_LEAK_PLUGIN ? "plugins:second-plugin-installed-before" : "plugins:second-plugin-installed-after");
     verif::cls(outmode == OUT_PLAIN ? "output:plain(non-allocating)" : outmode == OUT_JUNIT ? "output:junit" : keep_beyond_final ? "output:collecting-kept-beyond-final-report" : "output:collecting");
     if (bulk_tests) verif::cls("program:has-bulk-leak-step");
     if (outmode != OUT_PLAIN && printed_leak_failures_before_last) {
@@ -379,6 +420,8 @@ int run_case(Reader& r, bool& nontrivial, std::string& desc) {
         if (!M.own_failures && !M.leak_failure && M.cross_release) verif::cls("test:passes-while-freeing-earlier-block");
         if (M.leak_failure && M.cross_release) verif::cls("test:leaks-although-it-freed-an-earlier-block");
         if (M.reallocs) verif::cls("test:has-realloc-step");
+        if ((M.xpre || M.xpost) && !M.own_failures && !M.ignored && M.leaks.size() != M.expected)
+            verif::cls(M.leak_failure ? "test:plugin-failure-after-the-leak-verdict(leak-failure-stays)" : (M.xpre ? "test:plugin-pre-failure-suppresses-leak-failure" : "test:plugin-post-failure-first-suppresses-leak-failure"));
         if (M.realloc_earlier_not_larger) verif::cls(M.leak_failure ? "test:realloc-of-earlier-tests-block-to-same-or-smaller-size(leak-failure)" : "test:realloc-of-earlier-tests-block-to-same-or-smaller-size");
     }
 
@@ -392,24 +435,27 @@ int run_case(Reader& r, bool& nontrivial, std::string& desc) {
     V_CHECK(g_unattributed == 0, "C07:failure-for-unknown-test", "%d failure record(s) carry a test name that is not in the program", g_unattributed);
     for (int t = 0; t < g_ntests; t++) {
         TestModel& M = model[(size_t)t];
-        int own_seen = 0, leak_seen = 0, other = 0; std::string leak_text;
+        int own_seen = 0, leak_seen = 0, other = 0, x_seen = 0; std::string leak_text;
         for (int i = 0; i < g_nfail[t] && i < MAXFAIL; i++) {
             std::string m = g_fail[t][i];
             if (m.find("own failing check") != std::string::npos) own_seen++;
+            else if (m.find("scripted plugin failure") != std::string::npos) x_seen++;
             else if (m.compare(0, 21, "Memory leak(s) found.") == 0 || m.find("No memory leaks were detected.") != std::string::npos) { leak_seen++; leak_text = m; }
             else { other++; leak_text = m; }
         }
         if (g_nfail[t] > MAXFAIL) other += g_nfail[t] - MAXFAIL;
-        std::string ctx = sfmt("test t%02d (own failures %d, ignore %d, expected %u, leaked blocks %zu)", t, M.own_failures, (int)M.ignored, M.expected, M.leaks.size());
+        std::string ctx = sfmt("test t%02d (own failures %d, plugin failures pre %d post %d [%s], ignore %d, expected %u, leaked blocks %zu)", t, M.own_failures, M.xpre, M.xpost,
+                               xmode == X_BEFORE_LEAK_PLUGIN ? "post action runs before the leak plugin's" : xmode == X_AFTER_LEAK_PLUGIN ? "post action runs after the leak plugin's" : "no 2nd plugin", (int)M.ignored, M.expected, M.leaks.size());
         V_CHECK(other == 0, "C07:unexpected-failure-text", "%s: unexpected failure record: %s", ctx.c_str(), verif::printable(leak_text.substr(0, 500)).c_str());
         V_CHECK(own_seen == M.own_failures, "C07:own-failure-count", "%s: %d own failure record(s)", ctx.c_str(), own_seen);
+        V_CHECK(x_seen == M.xpre + M.xpost, "C07:plugin-failure-count", "%s: %d scripted plugin failure record(s)", ctx.c_str(), x_seen);
         if (M.leak_failure) V_CHECK(leak_seen >= 1, "C07:leak-not-reported", "%s: the test must fail with a leak report, it has %d failure record(s)", ctx.c_str(), g_nfail[t]);
-        else V_CHECK(leak_seen == 0, M.own_failures ? "C07:leak-failure-added-to-failed-test" : (M.ignored ? "C07:leak-failure-despite-ignore" : "C07:leak-failure-for-clean-test"),
+        else V_CHECK(leak_seen == 0, M.failed_before ? "C07:leak-failure-added-to-failed-test" : (M.ignored ? "C07:leak-failure-despite-ignore" : "C07:leak-failure-for-clean-test"),
                      "%s: got a leak failure: %s", ctx.c_str(), verif::printable(leak_text.substr(0, 500)).c_str());
         V_CHECK(leak_seen <= 1, "C07:more-than-one-leak-failure", "%s: %d leak failures", ctx.c_str(), leak_seen);
         if (M.leak_failure) { if (int rc = compare_report(ctx.c_str(), leak_text, M.leaks, "C07:leak-report")) return rc; }
     }
-    V_CHECK(total_failures == (size_t)(leakfails + ownfails), "C07:failure-count", "the run counts %zu failures, the model %d own + %d leak failures", total_failures, ownfails, leakfails);
+    V_CHECK(total_failures == (size_t)(leakfails + ownfails + xfails), "C07:failure-count", "the run counts %zu failures, the model %d own + %d plugin + %d leak failures", total_failures, ownfails, xfails, leakfails);
     if (int rc = compare_report("final report", final_blocks.empty() && g_final[0] == 0 ? std::string("No memory leaks were detected.") : std::string(g_final), final_blocks, "C07:final-report")) return rc;
     V_CHECK(residue_after == residue_before, "C07:residue-in-global-detector",
             "the global detector tracks %zu blocks after everything the program allocated was released (%zu before the case)", residue_after, residue_before);
@@ -426,6 +472,7 @@ extern "C" void verif_init(void) {
     g_plugin = (MemoryLeakWarningPlugin*)::operator new(sizeof(MemoryLeakWarningPlugin));
     new (g_plugin) MemoryLeakWarningPlugin("VerifLeakPlugin");     // the first plugin ever constructed: what EXPECT_N_LEAKS / IGNORE_ALL_LEAKS_IN_TEST talk to
     g_det = MemoryLeakWarningPlugin::getGlobalDetector();
+    g_xplugin = new ScriptPlugin();
 }
 extern "C" int verif_case(const uint8_t* data, size_t size) {
     Reader r(data, size);
